@@ -107,6 +107,8 @@ type sched struct {
 	states map[uint64]struct{}
 }
 
+var execEpoch uint64
+
 // S is the running execution (nil outside of one).
 var S *sched
 
@@ -238,7 +240,7 @@ func callerSiteN(skip int) string {
 	fr := runtime.CallersFrames(pcs[:n])
 	for {
 		f, more := fr.Next()
-		if !strings.Contains(f.File, "/engine/vs/") && f.File != "" {
+		if !strings.Contains(f.File, "/engine/vs/") && !strings.Contains(f.File, "/zz_verif/vs/") && f.File != "" {
 			file := f.File
 			if i := strings.LastIndex(file, "/"); i >= 0 {
 				file = file[i+1:]
@@ -344,6 +346,7 @@ func run(cfg *Config, prefix []int, body func(), trace bool) *Exec {
 		s.states = cfg.stateSet
 	}
 	S = s
+	execEpoch++
 	horizon := int64(cfg.Horizon)
 	if horizon == 0 {
 		horizon = int64(time.Hour)
